@@ -233,6 +233,16 @@ func (r *ReconcileTrial) reconcileTrial(instance *trialsv1beta1.Trial) error {
 		return err
 	}
 
+	// If the Job of an early stopped Trial is already deleted (retain = false),
+	// observation logs still must be verified/updated.
+	if deployedJob == nil && instance.IsEarlyStopped() && !instance.IsObservationAvailable() {
+		if err = r.UpdateTrialStatusObservation(instance); err != nil {
+			logger.Error(err, "Update trial status observation error")
+			return err
+		}
+		return nil
+	}
+
 	// Job already exists.
 	// If Trial is EarlyStopped we need to verify/update observation logs.
 	// In that case, Trial's job will be deleted even if metrics are not available.
